@@ -54,6 +54,18 @@ CHECKS = {
     "C33": ("exploration", "proptest recursive JSON generator; differential round-trip through the real automerge import/export subprocesses with kind-sensitive comparison",
             "export(import(x)) == x for keys, arrays, strings, exact integers over i64/u64 and floats by value and kind.",
             "CLI built from /repo's working tree into /verif/target-cli at start of each run.", "3/C33"),
+    "C20": ("exploration", "proptest schedules over a network simulator (encoded messages on FIFO links) with hook-forced Bloom false positives; bounded-liveness and equality oracle after a fair closing phase",
+            "Two peers with arbitrary generated histories, any interleaving of edit/generate/deliver; within a round bound linear in history size both go quiet with equal heads and state.",
+            "Bounded liveness: a protocol needing more than 20+4|changes|+4|peers|^2 fair rounds would be reported. Forced false positives come from the automerge_verif hook.", "3/C20, 2.9"),
+    "C21": ("exploration", "proptest schedules over the network simulator with disconnects dropping in-flight messages and reconnection with fresh or encode/decode-persisted sync state",
+            "3-5 peers, topology changes, concurrent edits, optional forced false positives; every connected component converges and goes quiet within the round bound.",
+            "Both ends of a dropped link replace their state (documented contract).", "3/C21, 2.9"),
+    "C22": ("exploration", "proptest schedules with read-only flags set at construction or toggled at generated points, messages in flight at toggles, optional forced false positives; snapshot invariant on every read-only receive",
+            "A read-only receive never changes heads or saved bytes; the writer still gets the reader's changes; switching back converges.",
+            "Two fixed defects were found here (reset with empty heads; silence after SYNC_RESET under Bloom false positives).", "3/C22, 2.9"),
+    "C36": ("exploration", "proptest call sequences resolved into a line program; differential: ASan+UBSan+LSan C driver subprocess vs the same operations on AutoCommit; thorough adds a valgrind sample",
+            "Generated sequences over document, map, list, text, mark, change, cursor, sync and result/item calls; every result read completely through the item API with byte spans copied out and freed at generated later points; oracle = sanitizer-clean driver AND transcript equal to the Rust API's.",
+            "Driver links the debug build of automerge-c. Error message texts are not compared. Invalid handles are never generated.", "3/C36, 2.11"),
 }
 
 PENDING = {}
@@ -83,7 +95,7 @@ def main():
             na.append({"property_id": i, "reason": PENDING.get(i, "check not built yet (work in progress; see DESIGN.md section 3 for the planned generated-input oracle)")})
     m = {
         "version": 1,
-        "setup_cmd": "cd /verif/harness && cargo build --offline --profile verif --bin amverif && (cd /repo/rust && CARGO_TARGET_DIR=/verif/target-cli cargo build --offline -p automerge-cli)",
+        "setup_cmd": "cd /verif/harness && cargo build --offline --profile verif --bin amverif && (cd /repo/rust && CARGO_TARGET_DIR=/verif/target-cli cargo build --offline -p automerge-cli) && /verif/cdriver/build.sh /verif/target-c",
         "hooks": {
             "guard": "--cfg automerge_verif",
             "enable": "RUSTFLAGS='--cfg automerge_verif' via /verif/harness/.cargo/config.toml (build.rustflags); /repo/rust/automerge is a path dependency of the harness",
